@@ -63,6 +63,8 @@ type requirement struct {
 
 // Ctx carries one run of one property's workload.
 type Ctx struct {
+	evals int64 // first: 64-bit atomics need 8-byte alignment on 32-bit platforms (the worker is also built for 386)
+
 	Prop, Tier string
 	Seed       int64
 	OutDir     string // scratch (breadcrumbs)
@@ -87,7 +89,6 @@ type Ctx struct {
 	crumbs [256]*os.File
 	samp   []any
 	reqs   []requirement
-	evals  int64
 	nviol  int
 	known  []KnownFinding
 }
